@@ -438,6 +438,37 @@ def rule_19_5(rep, fx):
                     okv = True
     rep.check(okv, 'R19.5', 'validate_remote_guid/compares', 'announced GUID start == guid_start_from_certificate(presented certificate)',
               'validate_remote_guid does not compare the announced GUID with the value derived from the presented certificate', v[0].where() if v else '')
+    # ... and the comparison decides (mutation triage: `==` -> `!=` here and the deleted copy of the hash bytes below both survived): no Ok from the mismatch edge, every
+    # Ok behind the match edge
+    if len(v) == 1:
+        vb = v[0]
+        Pv = Pos(vb)
+        ev = list(switch_edges(vb, fx, ogv))
+
+        def _binding(cond):
+            return cond[0] == 'call' and cond[1].endswith(('::eq', '::ne')) and term_has(cond, lambda z: z[0] == 'call' and z[1].endswith('guid_start_from_certificate'))
+        match = [(s_, t_) for s_, t_, cond, lab in ev if _binding(cond) and lab is cond[1].endswith('::eq')]
+        mism = [(s_, t_) for s_, t_, cond, lab in ev if _binding(cond) and lab is not cond[1].endswith('::eq')]
+        oks = [(bb, si) for bb, si, st in vb.statements() if st['s'] == 'assign' and st['lhs']['l'] == 0 and not st['lhs'].get('p') and st['rv']['r'] == 'agg' and st['rv'].get('variant') == 'Ok']
+        okd = bool(match) and bool(mism) and bool(oks) and all(Pv.every_path_passes(None, o, via_edges=match, from_entry=True) for o in oks) and \
+            not any(Pv.can_reach((t_, 0), o) for s_, t_ in mism for o in oks)
+        rep.check(okd, 'R19.5', 'validate_remote_guid/decides', 'Ok(()) only behind the match edge, never from the mismatch edge',
+                  'validate_remote_guid answers Ok for a GUID that does not match the presented certificate (or not only for one that does): any participant can claim the GUID of '
+                  'another', vb.where())
+    # the six bytes returned are bytes of that hash
+    Pg = Pos(g)
+    cps = []
+    for bb, t in g.calls():
+        if callee_res(t).endswith('copy_from_slice') or callee_res(t).endswith('clone_from_slice'):
+            src = ogg.of_operand(t['args'][1], bb, 'term')
+            if term_has(src, lambda x: x[0] == 'call' and x[1].endswith('Sha256::hash')):
+                cps.append((bb, 'term'))
+    oks = [(bb, si) for bb, si, st in g.statements() if st['s'] == 'assign' and st['lhs']['l'] == 0 and not st['lhs'].get('p') and st['rv']['r'] == 'agg' and st['rv'].get('variant') == 'Ok']
+    direct = [o for o in oks if term_has(ogg.of_operand(g.blocks[o[0]]['st'][o[1]]['rv']['ops'][0], o[0], o[1]), lambda x: x[0] == 'call' and x[1].endswith('Sha256::hash'))]
+    okh = bool(oks) and all(o in direct or (cps and Pg.every_path_passes(None, o, via_pos=cps, from_entry=True)) for o in oks)
+    rep.check(okh, 'R19.5', 'guid_start_from_certificate/output-is-hash', 'the value returned carries bytes of the subject-name hash on every path',
+              'guid_start_from_certificate returns a value that is not filled from the hash of the subject name (e.g. the zero-initialised buffer): every certificate then maps to '
+              'the same GUID start and the binding binds nothing', g.where())
 
 
 TOKEN_CALLS = ('::extract_request', '::extract_reply', '::extract_final')
